@@ -11,6 +11,22 @@ of the semi-major-axis sequence.
 
 A second, cheap space decides the ``EllipseGeometry.to_polar`` twin
 (scalar / vectorised) on ALL integer points of a 9x9 window x 24 geometries.
+
+Sizes / measured cost (user+sys): quick 220 fits + 7 776 to_polar calls, ~4 CPU-min;
+thorough 2 416 fits + the same to_polar space, ~55 CPU-min (1.35 CPU-s per fit,
+extrapolated from a 41-unit spread and the 1 764-fit calibration run = 2 494 CPU-s).
+
+Oracle clauses (violation keys are ``clause|site``):
+  raises, empty-list      fit_image must return isophotes for a start inside the basin
+  sorted                  strictly increasing sma
+  sma-range               every sma within [minsma, maxsma]
+  sma-sequence            the documented sequence sma0 (1+step)^k / sma0 + k step is fitted (well-sampled range only)
+  fixed                   fix_center / fix_pa / fix_eps (kwargs or EllipseGeometry) keep the initial value on EVERY isophote
+  accuracy                centre, eps, PA (mod pi), intensity of every isophote in the well-sampled range (an
+                          input-only rule, no stop code) within max(3 x reported error, 10 x calibrated deviation)
+  model, model-raises     build_ellipse_model inside the annulus spanned by the well-sampled isophotes
+  image-modified          image digest before / after
+  to_polar-scalar-vs-array, to_polar-reference, to_polar-raises
 """
 import itertools
 import math
@@ -351,6 +367,8 @@ CAL = {
 # interpolation (curvature of I across one pixel: it grows with 1/(r0 (1-eps)) and is largest for the cuspy
 # Sersic law), not noise; the errors photutils reports are of the same order.  Absolute tolerance = 10 x the
 # calibrated maximum (the area class only saw the exponential law, so it also takes the bilinear maximum).
+# Validated afterwards: quick lattice silent for seeds 0, 1, 2 (centre fraction +-0.05 px, amplitude +-20 %) and the
+# thorough blocks 'size' and 'range-edge' plus a 41-unit spread of all other blocks silent for seed 0.
 MARGIN = 10.0
 TOL = {}
 for (_e, _c), _v in CAL.items():
@@ -363,7 +381,7 @@ for (_e, _c), _v in CAL.items():
 # build_ellipse_model can leave isolated single-pixel artefacts where the galaxy changes by a factor ~2 per pixel
 # (eps 0.8, Sersic 4): over seeds 1 and 2 (374 more models) exactly one model has one deviating pixel out of 1 208
 # (0.083 %, excess 0.32).  The clause therefore bounds the FRACTION of deviating pixels of the region:
-# 10 x 0.083 % rounded up.  Lists with a PA wrap (the defect repaired by C20-model-pa-wrap) have 3 % ... 60 %.
+# 10 x 0.083 % rounded up.  Lists with a PA wrap (the defect repaired by proposed_fixes/C20-model-pa-wrap.diff) have 4 % ... 62 %.
 MODEL_FRAC_TOL = 0.01
 # a fixed PA is compared modulo pi: photutils re-parametrises an ellipse whose ellipticity crossed zero as
 # (-eps, pa +- pi/2); two crossings return the same orientation as pa, pa - pi or pa + 1 ulp (seen at eps 0.05)
